@@ -133,6 +133,11 @@ func tableVars(paths []*PathSum) (ints []string, bools []string) {
 // enumGrid visits every assignment of ints on [lo,hi] (derived terms are computed by
 // derive and not enumerated) and of bools, skipping those rejected by derive.
 func enumGrid(ints []string, lo, hi int64, bools []string, derive func(a Asg) bool, visit func(a Asg) bool) int {
+	return enumGridR(ints, func(string) (int64, int64) { return lo, hi }, bools, derive, visit)
+}
+
+// enumGridR: like enumGrid with a range per integer term.
+func enumGridR(ints []string, rng func(name string) (int64, int64), bools []string, derive func(a Asg) bool, visit func(a Asg) bool) int {
 	asg := Asg{I: map[string]int64{}, B: map[string]bool{}}
 	n := 0
 	stop := false
@@ -172,6 +177,7 @@ func enumGrid(ints []string, lo, hi int64, bools []string, derive func(a Asg) bo
 			recB(0)
 			return
 		}
+		lo, hi := rng(ints[i])
 		for v := lo; v <= hi; v++ {
 			asg.I[ints[i]] = v
 			recI(i + 1)
